@@ -281,7 +281,8 @@ def key_call(r, e):
 
 
 def b_patterns(occ=(1, 1), notes=1, thres=False):
-    """size = (n ref patterns, m est patterns); each pattern has occ[k] occurrences of `notes` notes."""
+    """size = (n ref patterns, m est patterns); each pattern has occ[k] occurrences of `notes` notes (an int, or a pair
+    (notes per reference occurrence, notes per estimated occurrence))."""
     def build(ctx, size):
         d = build0(ctx, size)
         if thres:
@@ -294,13 +295,15 @@ def b_patterns(occ=(1, 1), notes=1, thres=False):
     def build0(ctx, size):
         n, m = size
 
+        nn = notes if isinstance(notes, tuple) else (notes, notes)
+
         def pats(tag, k, nocc):
             out = []
             for p in range(k):
                 pat = []
                 for o in range(nocc):
                     occn = []
-                    for q in range(notes):
+                    for q in range(nn[0] if tag == 'r' else nn[1]):
                         on = ctx.real('%s%d_%d_on%d' % (tag, p, o, q))
                         mi = ctx.real('%s%d_%d_m%d' % (tag, p, o, q))
                         ctx.assume(on >= 0)
@@ -463,6 +466,9 @@ add('segment.detection[trim]', SEG.detection, b_boundary(trim=True), [('P', 'uni
     swap=[1, 0, 2], mono=[('window', [0, 1, 2])], exact_floats=False)
 add('segment.deviation', SEG.deviation, b_boundary(sym_window=False), [('ref_to_est', 'nonneg_or_nan'), ('est_to_ref', 'nonneg_or_nan')],
     _sz(SEGB_Q, SEGB_T), funcs=['segment.deviation'], perfect=[0, 0], swap=[1, 0], exact_floats=False)
+
+add('segment.deviation[trim]', SEG.deviation, b_boundary(trim=True, sym_window=False), [('ref_to_est', 'nonneg_or_nan'), ('est_to_ref', 'nonneg_or_nan')],
+    _sz([(2, 2), (3, 2)], [(2, 2), (3, 2), (2, 3), (3, 3)]), funcs=['segment.deviation'], perfect=[0, 0], swap=[1, 0], exact_floats=False, skip=('C02',))
 
 # ---- segment structure (frame clustering); label patterns are added by the property modules
 STRUCT = {
